@@ -196,6 +196,8 @@ pub fn run_once(program: &Program, prefix: &[u32]) -> Execution {
         w.reports.clear();
         w.drained = 0;
         w.reporter_traces = program.name.contains("+rt");
+        w.baseline_receivers = stats_before.receivers;
+        w.draining_index = 0;
         for a in &program.actors {
             let mut st = crate::sched::ActorState::default();
             st.pending = Some(Pending::Start);
